@@ -20,6 +20,7 @@ import (
 	"com.tuntun.rangers/node/src/storage/account"
 	"com.tuntun.rangers/node/src/vm"
 	"github.com/holiman/uint256"
+	"golang.org/x/crypto/sha3"
 	"verif/harness/hx"
 	"verif/harness/vmx"
 )
@@ -472,6 +473,20 @@ func refRun(code, input []byte, defined *[256]bool, maxSteps int) (out refOut) {
 				tmp := append([]byte{}, mem[int(src.Int64()):int(src.Int64())+int(n.Int64())]...)
 				copy(mem[int(dst.Int64()):], tmp)
 			}
+		case op == 0x20: // KECCAK256
+			if e := need(2, 1); e != "" {
+				return fail(e)
+			}
+			off, n := pop(), pop()
+			ok, bm := expand(off, n)
+			if !ok {
+				return refOut{kind: "fail:oog", bigmem: bm, steps: steps}
+			}
+			var data []byte
+			if n.Sign() > 0 {
+				data = mem[int(off.Int64()) : int(off.Int64())+int(n.Int64())]
+			}
+			push(new(big.Int).SetBytes(keccak256(data)))
 		case op == 0x50:
 			if e := need(1, 0); e != "" {
 				return fail(e)
@@ -599,6 +614,74 @@ func refRun(code, input []byte, defined *[256]bool, maxSteps int) (out refOut) {
 	}
 }
 
+// Keccak-256 written out here (FIPS-202 permutation, rate 136, Keccak padding 0x01..0x80) so that the
+// reference does not share the hashing library with the implementation.
+var kRC = [24]uint64{0x0000000000000001, 0x0000000000008082, 0x800000000000808a, 0x8000000080008000, 0x000000000000808b, 0x0000000080000001,
+	0x8000000080008081, 0x8000000000008009, 0x000000000000008a, 0x0000000000000088, 0x0000000080008009, 0x000000008000000a,
+	0x000000008000808b, 0x800000000000008b, 0x8000000000008089, 0x8000000000008003, 0x8000000000008002, 0x8000000000000080,
+	0x000000000000800a, 0x800000008000000a, 0x8000000080008081, 0x8000000000008080, 0x0000000080000001, 0x8000000080008008}
+var kRot = [24]uint{1, 3, 6, 10, 15, 21, 28, 36, 45, 55, 2, 14, 27, 41, 56, 8, 25, 43, 62, 18, 39, 61, 20, 44}
+var kPil = [24]int{10, 7, 11, 17, 18, 3, 5, 16, 8, 21, 24, 4, 15, 23, 19, 13, 12, 2, 20, 14, 22, 9, 6, 1}
+
+func keccakF(a *[25]uint64) {
+	for round := 0; round < 24; round++ {
+		var bc [5]uint64
+		for i := 0; i < 5; i++ {
+			bc[i] = a[i] ^ a[i+5] ^ a[i+10] ^ a[i+15] ^ a[i+20]
+		}
+		for i := 0; i < 5; i++ {
+			t := bc[(i+4)%5] ^ (bc[(i+1)%5]<<1 | bc[(i+1)%5]>>63)
+			for j := 0; j < 25; j += 5 {
+				a[j+i] ^= t
+			}
+		}
+		t := a[1]
+		for i := 0; i < 24; i++ {
+			j := kPil[i]
+			b := a[j]
+			a[j] = t<<kRot[i] | t>>(64-kRot[i])
+			t = b
+		}
+		for j := 0; j < 25; j += 5 {
+			for i := 0; i < 5; i++ {
+				bc[i] = a[j+i]
+			}
+			for i := 0; i < 5; i++ {
+				a[j+i] ^= (^bc[(i+1)%5]) & bc[(i+2)%5]
+			}
+		}
+		a[0] ^= kRC[round]
+	}
+}
+
+func keccak256(data []byte) []byte {
+	var st [25]uint64
+	const rate = 136
+	buf := append([]byte{}, data...)
+	buf = append(buf, 0x01)
+	for len(buf)%rate != 0 {
+		buf = append(buf, 0)
+	}
+	buf[len(buf)-1] |= 0x80
+	for off := 0; off < len(buf); off += rate {
+		for i := 0; i < rate/8; i++ {
+			var w uint64
+			for k := 0; k < 8; k++ {
+				w |= uint64(buf[off+8*i+k]) << (8 * uint(k))
+			}
+			st[i] ^= w
+		}
+		keccakF(&st)
+	}
+	out := make([]byte, 32)
+	for i := 0; i < 4; i++ {
+		for k := 0; k < 8; k++ {
+			out[8*i+k] = byte(st[i] >> (8 * uint(k)))
+		}
+	}
+	return out
+}
+
 // ---------------------------------------------------------------------------------------------
 // Program generator.
 
@@ -609,6 +692,8 @@ type gen struct {
 	mcopy bool
 	push0 bool
 }
+
+var sha3Emitted bool
 
 var binOps = []byte{0x01, 0x02, 0x03, 0x04, 0x05, 0x06, 0x07, 0x0a, 0x0b, 0x10, 0x11, 0x12, 0x13, 0x14, 0x16, 0x17, 0x18, 0x1a, 0x1b, 0x1c, 0x1d}
 
@@ -799,6 +884,14 @@ func (g *gen) instr(floor, cap int) {
 			if g.h < cap && r.Intn(4) == 0 {
 				g.emit(0x5a)
 				g.h++
+				return
+			}
+			if g.h+2 <= cap && r.Intn(3) == 0 { // KECCAK256 of a memory range (direct search only)
+				g.pushV(g.smallLen())
+				g.pushV(g.smallOff())
+				g.emit(0x20)
+				g.h--
+				sha3Emitted = true
 				return
 			}
 		}
@@ -1017,6 +1110,18 @@ func main() {
 	vmx.Boot(0)
 	restore()
 	thorough := a.Tier == "thorough"
+	if hex.EncodeToString(keccak256(nil)) != "c5d2460186f7233c927e7db2dcc703c0e500b653ca82273b7bfad8045d85a470" ||
+		hex.EncodeToString(keccak256([]byte("abc"))) != "4e03657aea45a94fc7d47ba826c8d667c0d1e6e33a64a036ec44f58fa12d6c45" {
+		panic("harness keccak256 self-test failed")
+	}
+	for _, n := range []int{1, 135, 136, 137, 272, 500} { // multi-block sanity of the harness's own implementation
+		d := hx.NewRng(uint64(n)).Bytes(n)
+		h := sha3.NewLegacyKeccak256()
+		h.Write(d)
+		if hex.EncodeToString(h.Sum(nil)) != hex.EncodeToString(keccak256(d)) {
+			panic("harness keccak256 multi-block self-test failed")
+		}
+	}
 
 	// ---- jump tables of the 8 proposal configurations, as installed in a live interpreter ----
 	var tabs [8][256]vm.VerifVMOp
@@ -1050,7 +1155,11 @@ func main() {
 	header := "From V.C10 Require Import Model Machine Harness.\nFrom Coq Require Import ZArith List.\nImport ListNotations.\nLocal Open Scope Z_scope.\n" +
 		"Definition NR := no_row.\nDefinition tabs : list params := [\n" + strings.Join(tabTerms, ";\n") + "].\n" +
 		"Definition chk (fc : nat * ccase) : bool := check (nth (fst fc) tabs (mkParams [] 1)) (snd fc).\nLocal Close Scope Z_scope."
-	cs := hx.NewCases(a.Out, header, "nat * ccase", "chk", 300)
+	perShard := 300
+	if a.Tier == "thorough" { // all shards are evaluated in parallel by the driver: fewer, larger shards
+		perShard = 700
+	}
+	cs := hx.NewCases(a.Out, header, "nat * ccase", "chk", perShard)
 	// model cases are buffered and written in a seeded shuffle so that every shard holds the same mix of
 	// cheap (opcode) and expensive (program) cases
 	type pending struct {
@@ -1275,7 +1384,7 @@ func main() {
 			}
 		}
 		modelOK := ref.memlen <= 1<<16 && (ref.kind != "skip" || ref.skipGas || gas <= 39000)
-		if toModel && len(code) < 1400 && modelOK {
+		if toModel && len(code) < 1400 && modelOK && !sha3Emitted {
 			addCase(f, fmt.Sprintf("CProg %s %s %d (%s)", hx.CoqHex(code), hx.CoqHex(input), gas, ob.coq()), in)
 		}
 		if kind == "structured" && ob.class == "ok" && len(ob.ret) > dumpBase {
@@ -1283,12 +1392,13 @@ func main() {
 		}
 		return ob
 	}
-	nProg := a.N / 2
+	nProg := a.N
 	for i := 0; i < nProg; i++ {
 		f := pickFork()
 		input := rng.Bytes([]int{0, 4, 31, 32, 33, 68, 100}[rng.Intn(7)])
 		var code []byte
 		kind := "structured"
+		sha3Emitted = false
 		switch k := rng.Intn(10); {
 		case k < 6:
 			code = genProgram(rng, f)
@@ -1331,6 +1441,7 @@ func main() {
 
 	// =========================================================================================
 	// (iv) jump destination analysis
+	sha3Emitted = false
 	nJump := a.N / 4
 	for i := 0; i < nJump; i++ {
 		var code []byte
@@ -1442,6 +1553,18 @@ func main() {
 				}
 			}
 			d := 4 + rng.Intn(len(body)+2)
+			if rng.Intn(2) == 0 { // aim at a real JUMPDEST half of the time
+				pb0 := boundarySet(append(append(push2(0), 0x56), body...))
+				var good []int
+				for q := 4; q < 4+len(body); q++ {
+					if body[q-4] == 0x5b && pb0[q] {
+						good = append(good, q)
+					}
+				}
+				if len(good) > 0 {
+					d = good[rng.Intn(len(good))]
+				}
+			}
 			prog := append(append(push2(d), 0x56), body...)
 			pb := boundarySet(prog)
 			want := d < len(prog) && prog[d] == 0x5b && pb[d]
